@@ -23,7 +23,12 @@ func init() {
 	simrt.Register(&simrt.Scenario{
 		Prop: "C03", Name: "kk-mismatch", Enumerated: true, Count: fixed(len(c03Shapes) * 3),
 		Run: c03KK, MaxOps: 1 << 20, Horizon: time.Hour,
-		Doc: "KK handshake with each key-mismatch shape (initiator stored a wrong responder key / responder stored a wrong initiator key / both / initiator presents another static key) x auth payload sizes",
+		Doc: "KK handshake with each key-mismatch shape (initiator stored a wrong responder key / responder stored a wrong initiator key / both / initiator presents another static key) / a responder with a paired key on file that is capped below version 2 and a stranger who knows the old passphrase) x auth payload sizes",
+	})
+	simrt.Register(&simrt.Scenario{
+		Prop: "C03", Name: "concurrent-sessions", Count: tiered(1500, 240000),
+		Run: c03Concurrent, MaxOps: 1 << 20, Horizon: time.Hour,
+		Doc: "several sessions with different passphrases set up and shaken hands concurrently in one process (tape-ordered at every lock and channel operation), among them a client that knows another session's passphrase only: that one must be rejected exactly as when it runs alone",
 	})
 	simrt.Register(&simrt.Scenario{
 		Prop: "C03", Name: "random", Count: tiered(3000, 480000),
@@ -126,11 +131,26 @@ func c03KKSpec(pr *prng, shape int, auth []byte) hsSpec {
 		sp.cliKey = &forgedECDH{pub: ck.PubKey(), priv: pr.ecdh()}
 	case 5: // the responder is the impersonator
 		sp.srvKey = &forgedECDH{pub: sk.PubKey(), priv: pr.ecdh()}
+	case 6, 7, 8:
+		// the responder has a paired key on file but is capped below the
+		// handshake version that carries the key-based pattern; somebody who
+		// knows the old pairing passphrase, with a static key of his own,
+		// knocks (as a first-time client, or with the responder's key stored)
+		sp.cliKey = pr.ecdh()
+		sp.cliRemote = nil
+		sp.cMin, sp.cMax, sp.sMin, sp.sMax = 0, 1, 0, 1
+		if shape == 7 {
+			sp.cMax, sp.sMax = 2, 0
+		}
+		if shape == 8 {
+			sp.cliRemote = sk.PubKey()
+		}
 	}
 	return sp
 }
 
-var c03Shapes = []string{"initiator-has-wrong-responder-key", "responder-has-wrong-initiator-key", "both-wrong", "initiator-presents-other-key", "initiator-impersonates-paired-key", "responder-impersonates-paired-key"}
+var c03Shapes = []string{"initiator-has-wrong-responder-key", "responder-has-wrong-initiator-key", "both-wrong", "initiator-presents-other-key", "initiator-impersonates-paired-key", "responder-impersonates-paired-key",
+	"version-capped-responder-with-paired-key/passphrase-client", "version-0-responder-with-paired-key/passphrase-client", "version-capped-responder-with-paired-key/client-stored-key"}
 
 // forgedECDH claims one public key and computes its Diffie-Hellman results
 // with an unrelated private key: a party that knows the paired public keys
@@ -140,7 +160,7 @@ type forgedECDH struct {
 	priv keychain.SingleKeyECDH
 }
 
-func (f *forgedECDH) PubKey() *btcec.PublicKey { return f.pub }
+func (f *forgedECDH) PubKey() *btcec.PublicKey                  { return f.pub }
 func (f *forgedECDH) ECDH(p *btcec.PublicKey) ([32]byte, error) { return f.priv.ECDH(p) }
 
 func c03KK(rc *simrt.RunCtx) {
@@ -244,4 +264,81 @@ func c03Random(rc *simrt.RunCtx) {
 		// refuses a payload that does not fit; counted
 		rc.Probe("c03.match-not-completed")
 	}
+}
+
+// c03Concurrent: handshakes of different sessions run concurrently in one
+// process; anything the implementation shares between them (caches, scratch
+// buffers) must not let the holder of one session's passphrase into another.
+func c03Concurrent(rc *simrt.RunCtx) {
+	pr := newPrng(rc.Seed())
+	installEphemeralGen(pr)
+	k := 2 + rc.Pick(2, "wl.sessions")
+	passes := make([][]byte, k)
+	for i := range passes {
+		passes[i] = pr.bytes(14)
+	}
+	type pair struct {
+		sp       hsSpec
+		ca, cb   *simConn
+		cli, srv *party
+		match    bool
+		what     string
+	}
+	var pairs []*pair
+	add := func(ci, si int) {
+		auth := marker(rc.Seed()+uint64(len(pairs)), 64)
+		sp := hsSpec{cliPass: passes[ci], srvPass: passes[si], cliKey: pr.ecdh(), srvKey: pr.ecdh(), auth: auth, cMin: 0, cMax: 2, sMin: 0, sMax: 2}
+		ca, cb := newDuplex()
+		pairs = append(pairs, &pair{sp: sp, ca: ca, cb: cb, match: ci == si, what: fmt.Sprintf("client with passphrase #%d at the server of session #%d", ci, si)})
+	}
+	waves := 1 + rc.Pick(2, "wl.waves")
+	for w := 0; w < waves && !rc.Failed(); w++ {
+		pairs = pairs[:0]
+		// the honest sessions ...
+		for i := 0; i < k; i++ {
+			if rc.Pick(4, "wl.skip-honest") != 0 {
+				add(i, i)
+			}
+		}
+		// ... and one or two strangers
+		for j := 0; j < 1+rc.Pick(2, "wl.strangers"); j++ {
+			ci := rc.Pick(k, "wl.stranger-pass")
+			si := (ci + 1 + rc.Pick(k-1, "wl.stranger-target")) % k
+			add(ci, si)
+		}
+		// tape-chosen start order
+		order := make([]int, len(pairs))
+		for i := range order {
+			order[i] = i
+		}
+		for i := len(order) - 1; i > 0; i-- {
+			j := rc.Pick(i+1, "wl.order")
+			order[i], order[j] = order[j], order[i]
+		}
+		for _, i := range order {
+			p := pairs[i]
+			p.cli, p.srv = runHandshake(rc, p.sp, p.ca, p.cb)
+		}
+		for _, p := range pairs {
+			waitParties(p.cli, p.srv)
+		}
+		for _, p := range pairs {
+			if rc.Failed() {
+				break
+			}
+			if p.match {
+				if p.cli.err != nil || p.srv.err != nil {
+					// C03 does not promise success; counted, not judged
+					rc.Probe("c03.honest-concurrent-handshake-failed")
+				} else {
+					rc.Probe("c03.honest-concurrent-handshake-ok")
+				}
+				continue
+			}
+			c03Judge(rc, "concurrent sessions: "+p.what, "concurrent/stranger", p.sp, p.cli, p.srv, p.ca, p.cb)
+		}
+	}
+	rc.Sample("%d sessions, %d wave(s) of concurrent handshakes with strangers", k, waves)
+	rc.Progress()
+	rc.Fault("concurrent-sessions")
 }
